@@ -79,6 +79,17 @@ func drawC09(t *rapid.T) caseC09 {
 		c.L1 = &l
 	case "lzma2":
 		l := drawC08(t)
+		if rapid.IntRange(0, 2).Draw(t, "rawthencompressed") == 0 {
+			// an incompressible write (stored as uncompressed chunk) followed by
+			// compressible data: a failed raw-chunk write must not wedge the writer
+			rnd := gen.Seg{Kind: "random", Len: rapid.IntRange(50, 5000).Draw(t, "rlen"), Seed: rapid.Uint64().Draw(t, "rseed")}
+			txt := gen.Seg{Kind: "text", K: 2, Len: rapid.IntRange(200, 8000).Draw(t, "tlen"), Seed: 3}
+			l.Steps = []stepW2{{Op: "write", Seg: &rnd}}
+			if rapid.Bool().Draw(t, "flushbetween") {
+				l.Steps = append(l.Steps, stepW2{Op: "flush"})
+			}
+			l.Steps = append(l.Steps, stepW2{Op: "write", Seg: &txt}, stepW2{Op: "close"})
+		}
 		total := 0
 		for i := range l.Steps {
 			if s := l.Steps[i].Seg; s != nil {
